@@ -1000,6 +1000,14 @@ class Exec(object):
         """python slice index normalisation"""
         return z3.If(i < 0, z3.If(i + n < 0, z3.IntVal(0), i + n), z3.If(i > n, n, i))
 
+    def _norm_in(self, path, i, n):
+        """slice index normalisation, simplified by what the path condition already excludes"""
+        if self.feasible(path, i < 0) == 'no':
+            if self.feasible(path, i > n) == 'no':
+                return i
+            return z3.If(i > n, n, i)
+        return self._norm(i, n)
+
     def slice_(self, path, o, lo, hi, step):
         if step is not None:
             raise Unsupported('slice step')
@@ -1030,8 +1038,8 @@ class Exec(object):
                 # s[a:-k]
                 t = z3.SubString(o.t, cl, n + ch - cl)
             else:
-                l = self._norm(lo.t, n) if lo is not None else z3.IntVal(0)
-                h = self._norm(hi.t, n) if hi is not None else n
+                l = self._norm_in(path, lo.t, n) if lo is not None else z3.IntVal(0)
+                h = self._norm_in(path, hi.t, n) if hi is not None else n
                 t = z3.SubString(o.t, l, z3.If(h - l > 0, h - l, 0))
             t = z3.simplify(t)
             if isinstance(o, VSeq):
@@ -1794,6 +1802,14 @@ class Exec(object):
                         if isinstance(o, Raise):
                             nxt.append((p2, 'raise', o.exc))
                             continue
+                        if isinstance(tgt.slice, ast.Slice):
+                            # del lst[:]  (whole list, concrete spine)
+                            sl = tgt.slice
+                            if sl.lower is None and sl.upper is None and sl.step is None and isinstance(o, VList):
+                                p2.heap[('list', o.lid)] = ()
+                                nxt.append((p2, 'next', None))
+                                continue
+                            raise Unsupported('del of a slice')
                         for p3, i in self.eval(tgt.slice, p2, fr):
                             if isinstance(i, Raise):
                                 nxt.append((p3, 'raise', i.exc))
